@@ -171,7 +171,7 @@ let () =
            let throwing = (act = "5") in
            let tagged r = act = "t" && Hashtbl.mem thrs (gid, int_of_nat r) in
            let c = { ceol = EolLfCrlf;
-                     acts = (fun _ r -> if throwing || tagged r then AKApply false else AKNone);
+                     acts = (fun _ r -> if (throwing && (let i = int_of_nat r in i < n && garr.(i).nenabled)) || tagged r then AKApply false else AKNone);
                      abeh = (fun _ r b e ->
                          if tagged r then AThrow N0 else
                          let r = int_of_nat r and (bb, _, _) = ipos b and (eb, _, _) = ipos e in
